@@ -9,6 +9,7 @@ import (
 	"sort"
 	"strconv"
 	"strings"
+	"time"
 
 	"cachelint/core"
 	"cachelint/pw"
@@ -16,6 +17,7 @@ import (
 )
 
 func main() {
+	t0 := time.Now()
 	repo := flag.String("repo", "/repo", "repository root")
 	verif := flag.String("verif", "/verif", "verif directory (evidence, replay, known findings)")
 	prop := flag.String("prop", "", "property id (C01…)")
@@ -69,6 +71,7 @@ func main() {
 	}
 	seed, _ := strconv.ParseInt(os.Getenv("VERIF_SEED"), 10, 64)
 	rep := core.NewReport(p.ID, *tier, seed)
+	rep.Start = t0
 	rep.Count("packages_loaded", len(prog.Pkgs))
 	rep.Count("files_loaded", len(prog.Files))
 	ctx := &rules.Ctx{Prog: prog, Pkg: prog.Cache, R: rep, Tier: *tier}
@@ -80,6 +83,11 @@ func main() {
 		}()
 		p.Run(ctx)
 	}()
+	rep.Assumptions = append(rep.Assumptions,
+		"go/packages + go/types resolve identifiers, selections and callees as the compiler does",
+		"the path walker's abstraction: facts on nil-ness, truth and order of abstract values only; loops analysed for zero and one iteration per path with loop-assigned variables havoc'd; helper inlining bounded (depth 3-4); built-in axioms: errors.Is/As(nil)=false, fmt.Errorf/errors.New/allocations non-nil, false comma-ok implies the zero value",
+		"sync.Mutex/RWMutex, channels, sync/atomic, Go maps and sync.Map behave as documented; user-supplied builders, backends, loggers, trackers, deleters and callbacks are outside the subject",
+	)
 	if *tier == "thorough" && len(ov) == 0 {
 		thorough(p.ID, *repo, rep)
 	}
